@@ -47,6 +47,14 @@ def encode_cmd_and_payload(
 
 def validate_group_value(value: DPTBinary | DPTArray) -> None:
     """Raise ConversionError if a group value can not be serialized."""
+    if isinstance(value, DPTBinary):
+        # 6 bits share the octet with the APCI
+        if (
+            not isinstance(value.value, int)
+            or not 0 <= value.value <= DPTBinary.APCI_BITMASK
+        ):
+            raise ConversionError("Could not serialize DPTBinary", value=value.value)
+        return
     if not isinstance(value, DPTArray):
         return
     # APCI and payload share the APDU of a frame: 254 octets maximum
@@ -572,11 +580,11 @@ class GroupValueWrite(APCI):
 
     def to_knx(self) -> bytearray:
         """Serialize to KNX/IP raw data."""
+        # the value may have been replaced or changed after __post_init__ checked it
+        validate_group_value(self.value)
         if isinstance(self.value, DPTBinary):
             return encode_cmd_and_payload(self.CODE, encoded_payload=self.value.value)
 
-        # the value may have been replaced after __post_init__ checked it
-        validate_group_value(self.value)
         return encode_cmd_and_payload(
             self.CODE, appended_payload=bytes(self.value.value)
         )
@@ -617,10 +625,10 @@ class GroupValueResponse(APCI):
 
     def to_knx(self) -> bytearray:
         """Serialize to KNX/IP raw data."""
+        # the value may have been replaced or changed after __post_init__ checked it
+        validate_group_value(self.value)
         if isinstance(self.value, DPTBinary):
             return encode_cmd_and_payload(self.CODE, encoded_payload=self.value.value)
-        # the value may have been replaced after __post_init__ checked it
-        validate_group_value(self.value)
         return encode_cmd_and_payload(
             self.CODE, appended_payload=bytes(self.value.value)
         )
